@@ -152,6 +152,20 @@ static int life_cmd(int n, char **a) {
     life_lsdir();
     o.create_if_missing = 0; o.error_if_exists = 0;
     o.comparator = (g_cmp_kind == 1) ? ldb_bytewise_comparator : &g_rev;
+    {
+      /* variants: 0 = a comparator with an unrelated name; 1 = the stored name plus a suffix; 2 = a strict prefix of the stored name
+         (both with a DIFFERENT order): names must match exactly */
+      static ldb_comparator_t wc; static char wname[200];
+      int variant = n >= 2 ? atoi(a[1]) : 0;
+      const char *cur = g_opt.comparator ? g_opt.comparator->name : ldb_bytewise_comparator->name; size_t len = strlen(cur);
+      if (variant == 1 || variant == 2) {
+        wc = (g_cmp_kind == 1) ? *ldb_bytewise_comparator : g_rev;
+        if (variant == 1) snprintf(wname, sizeof(wname), "%s.v2", cur);
+        else { snprintf(wname, sizeof(wname), "%s", cur); wname[len > 4 ? len - 3 : len] = 0; }
+        wc.name = wname; wc.user_comparator = NULL;
+        o.comparator = &wc;
+      }
+    }
     g_quiet++;
     rc = ldb_open(g_dir, &o, &db2);
     if (rc == LDB_OK && db2 != NULL) ldb_close(db2);      /* must not happen */
